@@ -23,7 +23,7 @@ for p in props:
         "evidence_file": "evidence/%s.json" % pid,
         "replay_cmd_template": "cat {path}",
         "engine": "mahf-sa",
-        "level_claimed": {"category": "other", "text": mod.EXPLANATION, "design_ref": "DESIGN.md §6 " + pid},
+        "level_claimed": {"category": "other", "text": mod.EXPLANATION + __import__("deps").explain(pid), "design_ref": "DESIGN.md §6 " + pid},
         "level_note": "Trusted base: rustc type checking and MIR construction (nightly, mir-opt-level=0), documented contracts of std and third-party crates; "
                       "panics/unwinding out of scope unless a rule says otherwise; crate-local calls inlined to depth 8. " + " ".join(getattr(mod, "ASSUMPTIONS", [])),
         "technique": getattr(mod, "TECHNIQUE", "static analysis over rustc MIR (custom rustc_private driver): finite-domain abstract interpretation of the anchored bodies, CFG path/dominance rules, who-may-call tables"),
